@@ -12,7 +12,7 @@ RULE = (
     "invariant (<= 1e-9) after every update and bounded liveness dt == dt_max from step window+2 on; non-trivial = at least 5 "
     "updates on a mesh with >= 10 sites; distinct = scenario digests"
 )
-LIFECYCLES = {"p_prior": 0.15, "p_metres": 0.08}  # shared object life cycles (scen.add_lifecycles) with their default rates
+LIFECYCLES = {"p_prior": 0.15, "p_metres": 0.08, "p_guest": 0.3}  # shared object life cycles (scen.add_lifecycles) with their default rates
 BUDGET = {"quick": {"runs": 300, "chunk": 10}, "thorough": {"runs": 40000, "chunk": 20}}
 COMPONENTS = {"real": ["mesh + MeshOperators", "TDGLSolver.update incl. screening kernel", "dt controller"], "stub": ["wall clock"]}
 ASSUMPTIONS = ["'Exactly stationary' is decided as 'to accumulated rounding' (<= 1e-9): Laplacian row sums are ~1e-14 on irregular meshes, a wrong sign or weight moves psi by O(dt) >= 1e-4 per step."]
@@ -59,6 +59,20 @@ def gen(seed, idx, tier):
             o["skip_time"] = scen.r3(o["dt_max"] * rnd.randint(1, 3))
         scn["faults"] = []
         scn["meta"]["tiny_dt_init"] = True
+    rg = substream(seed, idx, "c17-guest-inside-step")
+    if rg.random() < 0.2 and scn["options"].get("adaptive"):
+        # a strongly disturbed other simulation (contacts pinned to zero, suppressed epsilon, a field) runs INSIDE
+        # a step of the quiescent one, after its psi update - between the psi update and the end of the step the
+        # run still holds |psi|^2 for the step-size controller
+        steps_ = max(1, min(int(scn["meta"].get("steps", 5)), 10))
+        what = {"mode": "other-field", "field": {"kind": "const", "B": scen.r3(rg.choice([0.7, 1.5]) * scen.FIELD_FACTOR[scn["options"].get("field_units", "mT")])}, "steps": rg.choice([2, 3]), "save_every": 100, "epsilon": {"kind": "const", "v": rg.choice([0.3, -0.5])}}
+        if scn["device"]["terminals"]:
+            what["terminal_psi"] = 0.0
+        fn = rg.choice(["solve_for_observables", "solve_for_observables", "update"])
+        at = {"point": "line", "stage": "S", "func": fn, "ordinal": (rg.randint(0, 6) + 7 * rg.randint(0, steps_ - 1)) if fn == "solve_for_observables" else rg.randint(30, 60 * steps_)}
+        if scn["options"].get("include_screening") and rg.random() < 0.5:
+            at = {"point": "screen", "stage": "S", "step": rg.randint(0, steps_ - 1), "nth": rg.choice([0, 1])}
+        scn["guests"] = [{"at": at, "what": what}]
     return scen.maybe_sibling(rnd, scen.maybe_restored(rnd, scen.maybe_solve_twice(rnd, scn)), 0.15)
 
 
